@@ -84,7 +84,8 @@ def build_corpus(tier: str, seed: int = 0, extra_seed=None):
     # round 4: families over dimensions the hunters varied (harness/c01_hunt.py); small programs, all of them in both tiers
     D = {"safe": False, "keep_imports": False, "use_preserve": False, "max_line_length": 100}
     for k, (name, src) in enumerate(c01_hunt.all_programs()):
-        add(f"hunt:{name}", "hunt", src, [D] if quick else [D] + pick_combos(k, 3))
+        both = [D, dict(D, safe=True)]
+        add(f"hunt:{name}", "hunt", src, (both if name.startswith(("imports/", "star/")) or k % 4 == seed % 4 else [D]) if quick else both + pick_combos(k, 2))
     nflow, ndata = (240, 240) if quick else (600, 600)
     shard = (lambda i: i % 4 == seed % 4) if quick else (lambda i: True)
     for i in range(nflow):
